@@ -170,7 +170,7 @@ class DirectoryResourcePopulator:
                 if trim_extensions and pt.isfile(full_file_path):
                     relpath = pt.splitext(relpath)[0]
                 resource_string = relpath.replace(
-                    pt.sep, ResourceMap.split_char)
+                    pt.sep, resource_map.split_char)
 
                 new_resource = None
                 if (pt.isdir(full_file_path)
